@@ -11,7 +11,8 @@ from .. import core, build, lean, unit
 
 PROP = "C16"
 MODULES = ["NngModel.Props.C16", "NngModel.Props.C16Http", "NngModel.Props.C16Sha1", "NngModel.Props.C16Upgrade",
-           "NngModel.Props.C16Queue"]
+           "NngModel.Props.C16Queue", "NngModel.Props.C16Server", "NngModel.Props.C16ServerSrc",
+           "NngModel.Props.C16Client"]
 ALLOC_LIMIT = 1 << 22
 
 # ------------------------------------------------------------------------------------------ WS
@@ -562,6 +563,15 @@ def run(tier, seed, replay=None):
     tot["cases"] += qc["cases"]; tot["ops"] += qc["ops"]; tot["spec"] += qc["spec"]
     tot["model"] += qc["model"]; tot["crash"] += qc["crash"]
     hist["queue"] = qc["op_hist"]; rvh["queue"] = qc["rv_hist"]; samples += qc["samples"]; distinct += qc["distinct"]
+    # HTTP server layer: handler table, routing, request framing, persistence, error pages (vlib/props/c16_server.py)
+    from . import c16_server
+    vc, vv = c16_server.run_part(tier, seed, st, replay)
+    for tag, payload, no_input in vv:
+        v.violation(tag, payload, no_input=no_input)
+        found_input = found_input or not no_input
+    tot["cases"] += vc["cases"]; tot["ops"] += vc["ops"]; tot["spec"] += vc["spec"] + vc["seg"]
+    tot["model"] += vc["model"]; tot["crash"] += vc["crash"]
+    hist["server"] = vc["op_hist"]; rvh["server"] = vc["rv_hist"]; samples += vc["samples"]; distinct += vc["distinct"]
     if not found_input:
         for s in subs:
             if s.res and s.res.model_mismatch:
@@ -598,6 +608,9 @@ def run(tier, seed, replay=None):
     cov["upgrade_rule"] = c16_upgrade.RULE
     cov["queue_part"] = {k: qc.get(k, 0) for k in ("cases", "ops", "spec", "model", "crash", "completions", "paused_lines", "held_lines", "wall_s")}
     cov["queue_rule"] = c16_queue.RULE
+    cov["server_part"] = {k: vc.get(k, 0) for k in ("cases", "ops", "bytes", "responses", "handler_runs", "closes", "status_hist", "spec", "seg",
+                                                    "model", "crash", "wall_s")}
+    cov["server_rule"] = c16_server.RULE
     core.write_evidence(PROP, tier, seed, "proof", cov,
                         ["Model/Ws.lean, Model/HttpChunk.lean, Model/Base64.lean mirror websocket.c, http_chunk.c, base64.c; tie = differential "
                          "execution on the cases above",
